@@ -680,7 +680,19 @@ def gen_pattern_doubled(r):
     return inp
 
 
+def pattern_as_lists(inp):
+    """The same patterns with every (onset, midi) pair as a list instead of a
+    tuple (e.g. decoded from JSON): admitted by the validator."""
+    out = dict(inp)
+    for side in ("ref", "est"):
+        out[side] = [[[list(p) for p in occ] for occ in pat] for pat in inp[side]]
+    out["cls"] = inp["cls"] + "+list-pairs"
+    return out
+
+
 def calls_pattern(inp, r):
+    if r.random() < 0.15:
+        inp = pattern_as_lists(inp)
     a = (inp["ref"], inp["est"])
     return [
         ("pattern.standard_FPR", a, draw_params(r, {"tol": [1e-5, 0.5]})),
@@ -693,6 +705,8 @@ def calls_pattern(inp, r):
 
 
 def eval_pattern(inp, r):
+    if r.random() < 0.15:
+        inp = pattern_as_lists(inp)
     return (inp["ref"], inp["est"]), draw_params(r, {"n": [5, 1, 2, 10],
                                                      "tol": [1e-5, 0.5]}, 0.7)
 
